@@ -8,7 +8,7 @@ import (
 	"fmt"
 )
 
-// lru mode. Input line: {"cap":3,"ops":[["S",k,v,d],["G",k],["D",k],["C",k]]}
+// lru mode. Input line: {"cap":3,"ops":[["S",k,v,d],["G",k],["D",k],["C",k],["R",k]]}
 // Output line: {"steps":[{"r":..., "res":[[k,v,d],...]}]}
 //   S -> r = [ok(0/1), evictedKey or -1] ; G -> r = [found(0/1), value] ; D/C -> r = []
 type lruCase struct {
@@ -68,6 +68,25 @@ func init() {
 						b = 1
 					}
 					st.R = []int64{b, ev}
+				case "R":
+					// store the page object that is cached under this key once more (what fileStore.update
+					// does with every page it writes): a use like any other; a key that is not cached: a miss
+					if e, ok := cache.cache[num(op[1])]; ok {
+						n := e.Value.(*cacheEntry).val
+						before := len(cache.cache)
+						ok := cache.set(num(op[1]), n)
+						if len(cache.cache) != before {
+							return fmt.Errorf("re-storing a cached page changed the number of entries")
+						}
+						b := int64(0)
+						if ok {
+							b = 1
+						}
+						st.R = []int64{b, -1}
+					} else {
+						_, _ = cache.get(num(op[1]))
+						st.R = []int64{0, 0}
+					}
 				case "G":
 					n, ok := cache.get(num(op[1]))
 					if ok {
